@@ -211,11 +211,39 @@ func mkBranch[T any](choice []string, ends map[string]bool) *compose.GraphBranch
 	}, ends)
 }
 
-func mkPre[I, S any]() compose.GraphAddNodeOpt {
-	return compose.WithStatePreHandler(func(ctx context.Context, in I, s S) (I, error) { return in, nil })
+// state handlers: identity, or (ret says so) always the same value, which the generator
+// picks among the values of the handler's declared type (any value for an any handler)
+func mkPre[I, S any](ret func() (any, bool)) compose.GraphAddNodeOpt {
+	return compose.WithStatePreHandler(func(ctx context.Context, in I, s S) (I, error) {
+		if v, ok := ret(); ok {
+			var out I
+			if v != nil {
+				out = v.(I)
+			}
+			return out, nil
+		}
+		return in, nil
+	})
 }
-func mkPost[O, S any]() compose.GraphAddNodeOpt {
-	return compose.WithStatePostHandler(func(ctx context.Context, out O, s S) (O, error) { return out, nil })
+func mkPost[O, S any](ret func() (any, bool)) compose.GraphAddNodeOpt {
+	return compose.WithStatePostHandler(func(ctx context.Context, out O, s S) (O, error) {
+		if v, ok := ret(); ok {
+			var o O
+			if v != nil {
+				o = v.(O)
+			}
+			return o, nil
+		}
+		return out, nil
+	})
+}
+
+func retOf(h *H) func() (any, bool) {
+	if h.Ret == "" {
+		return func() (any, bool) { return nil, false }
+	}
+	d := h.Ret
+	return func() (any, bool) { return valueOf(d), true }
 }
 
 // ---------------------------------------------------------------- case
@@ -223,6 +251,7 @@ func mkPost[O, S any]() compose.GraphAddNodeOpt {
 type H struct {
 	State int    `json:"state"` // 1 | 2
 	Ty    string `json:"ty"`
+	Ret   string `json:"ret,omitempty"` // "" = returns its argument; else the dynamic value it always returns
 }
 
 type Op struct {
@@ -395,10 +424,10 @@ func build(c *Case, plans []runPlan, extra bool) (bo BuildObs) {
 			case "node", "pass":
 				var opts []compose.GraphAddNodeOpt
 				if o.Pre != nil {
-					opts = append(opts, newPreHandler(o.Pre.Ty, o.Pre.State))
+					opts = append(opts, newPreHandler(o.Pre.Ty, o.Pre.State, retOf(o.Pre)))
 				}
 				if o.Post != nil {
-					opts = append(opts, newPostHandler(o.Post.Ty, o.Post.State))
+					opts = append(opts, newPostHandler(o.Post.Ty, o.Post.State, retOf(o.Post)))
 				}
 				if o.K == "node" {
 					key := o.Key
@@ -584,6 +613,13 @@ func oracleStatic(c *Case, bo *BuildObs) string {
 // upstream static type is an interface and whose consumer type the value is not assignable to
 func typeErrJustified(c *Case, bo *BuildObs, ro *RunObs) bool {
 	outT, _, conns, pass := resolved(c, bo)
+	// values that may flow out of a node: the input, what the lambdas emit, and what state
+	// handlers return (an over-approximation: a returned value replaces the original one)
+	type src struct {
+		p int
+		d string
+	}
+	var srcs []src
 	for p := range outT {
 		if p == 1 || pass[p] {
 			continue
@@ -592,6 +628,29 @@ func typeErrJustified(c *Case, bo *BuildObs, ro *RunObs) bool {
 		if p != 0 {
 			d = ro.Emit[strconv.Itoa(p)]
 		}
+		srcs = append(srcs, src{p, d})
+	}
+	for i, o := range c.Ops {
+		if !bo.Oks[i] || (o.K != "node" && o.K != "pass") {
+			continue
+		}
+		for _, h := range []*H{o.Pre, o.Post} {
+			if h == nil || h.Ret == "" {
+				continue
+			}
+			if o.K == "pass" {
+				// the result of a passthrough node's handler is checked against the node's type
+				if !dynAssignable(h.Ret, outT[o.Key]) {
+					return true
+				}
+				srcs = append(srcs, src{o.Key, h.Ret})
+			} else if h == o.Post {
+				srcs = append(srcs, src{o.Key, h.Ret})
+			}
+		}
+	}
+	for _, sc := range srcs {
+		p, d := sc.p, sc.d
 		seen := map[int]bool{p: true}
 		work := []int{p}
 		for len(work) > 0 {
@@ -714,7 +773,11 @@ func coqH(h *H) string {
 	if h == nil {
 		return "None"
 	}
-	return lib.CoqSome(fmt.Sprintf("{| h_state := %s; h_ty := %s |}", lib.CoqN(uint64(h.State)), coqTyMap[h.Ty]))
+	ret := "None"
+	if h.Ret != "" {
+		ret = lib.CoqSome(coqDynMap[h.Ret])
+	}
+	return lib.CoqSome(fmt.Sprintf("{| h_state := %s; h_ty := %s; h_ret := %s |}", lib.CoqN(uint64(h.State)), coqTyMap[h.Ty], ret))
 }
 func coqKeys(ks []int) string {
 	s := make([]string, len(ks))
@@ -886,6 +949,9 @@ func (engine) Run(ci any) lib.Result {
 				}
 			case strings.HasPrefix(r.DClass, "panic") || strings.HasPrefix(r.DClass, "hang"):
 				fail("dag-panic", fmt.Sprintf("accepted graph compiled with AllPredecessor: run %d (input %s, emit %v): %s", k, r.Input, r.Emit, r.DClass))
+			case r.Class == "ok" && r.SClass != "ok":
+				// laziness can only remove errors: a run that Invoke completes must complete through Stream
+				fail("stream-fails-invoke-ok", fmt.Sprintf("accepted graph: run %d (input %s, emit %v): Invoke returns %s, Stream fails: %s (%s)", k, r.Input, r.Emit, r.Result, r.SClass, r.SMsg))
 			case r.SClass == "ok" && r.Class == "ok" && r.SResult != r.Result:
 				fail("invoke-stream-result-differ", fmt.Sprintf("accepted graph: run %d (input %s, emit %v): Invoke returns %s, Stream returns %s", k, r.Input, r.Emit, r.Result, r.SResult))
 			}
